@@ -107,6 +107,11 @@ $(B)/$(1): $(B)/harness/$(2).o $$(DRIVER) $$(addprefix $(B)/engine/,$$(EXTRA_$(1
 .PHONY: $(1)
 $(1): $(B)/$(1)
 ALL += $(B)/$(1)
+# libFuzzer front end of the same harness (VARIANT=fuzz only)
+$(B)/$(1)_fuzz: $(B)/harness/$(2).o $(B)/engine/fuzz_main.o $$(addprefix $(B)/engine/,$$(EXTRA_$(1))) $(B)/libqb.a
+	$$(CXX) $$(CFLAGS) -fsanitize=fuzzer -o $$@ $(B)/harness/$(2).o $(B)/engine/fuzz_main.o $$(addprefix $(B)/engine/,$$(EXTRA_$(1))) $$(LDX_$(1)) $(B)/libqb.a $$(LDLIBS)
+.PHONY: $(1)_fuzz
+$(1)_fuzz: $(B)/$(1)_fuzz
 endef
 
 HARNESS_SRCS := $(wildcard $(VERIF)/harness/c[0-9][0-9]*_*.c $(VERIF)/harness/c[0-9][0-9]*_*.cc)
